@@ -29,9 +29,21 @@ def done_future(loop, v):
 
 
 # ---------------------------------------------------------------- workchains
+def _look(self):
+    """A step consults its inputs and records what it saw in persisted state."""
+    seen = [self.raw_inputs is None, 'limit' in self.inputs, self.inputs.get('limit')]
+    self.ctx._seen.append(seen)
+
+
+def _declare_inputs(spec):
+    spec.input('limit', required=False)
+    spec.input('tag', required=False)
+
+
 def _wc_step_body(self, fid):
     ctx = self.ctx
     ctx._trace.append(['s', fid])
+    _look(self)
     i = ctx._ri
     ctx._ri = i + 1
     rets = ctx._rets
@@ -131,6 +143,7 @@ def build_wc(outline, override=()):
 
     def define(cls, spec):
         super(base, cls).define(spec)
+        _declare_inputs(spec)
         spec.outputs.dynamic = True
         spec.outline(*cmds)
 
@@ -166,6 +179,7 @@ def class_attrs(klass, names):
 def init_wc(wc, preds, rets):
     ctx = wc.ctx
     ctx._trace = []
+    ctx._seen = []
     ctx._pi = 0
     ctx._ri = 0
     ctx._preds = list(preds)
@@ -198,6 +212,7 @@ def _mk_proc_step(name):
         c = ctx._counts.get(name, 0)
         ctx._counts[name] = c + 1
         ctx._trace.append([name, list(args), [[k, v] for k, v in kwargs.items()]])
+        _look(self)
         variants = prog[name]
         if not variants:
             return None
@@ -232,6 +247,7 @@ def build_proc(names):
 
     def define(cls, spec):
         super(klass, cls).define(spec)
+        _declare_inputs(spec)
         spec.outputs.dynamic = True
 
     ns = {n: _mk_proc_step(n) for n in names}
@@ -248,5 +264,6 @@ def build_proc(names):
 def init_proc(proc, prog):
     ctx = proc.ctx
     ctx._trace = []
+    ctx._seen = []
     ctx._counts = {}
     ctx._prog = {k: [dict(v) for v in vs] for k, vs in prog}
